@@ -104,12 +104,14 @@ def get_reply_shape():
 
 
 def queue_request_shape():
-    """connect(); entry = [request, Event(), None]; self.txq.put(entry, timeout=..); return entry"""
+    """connect(); entry = [request, Event(), None]; self.txq.put(entry, timeout=..);
+    if not self._running: entry[1].set()  (repair 14a9701); return entry"""
     f = _method('queue_request')
     stm = [_norm(s) for s in f.body if not (isinstance(s, ast.Expr) and isinstance(s.value, ast.Constant))]
-    ok = (len(stm) == 5 and stm[0] == 'request=(action,ident,data)' and stm[1] == 'self.connect()'
+    ok = (len(stm) == 6 and stm[0] == 'request=(action,ident,data)' and stm[1] == 'self.connect()'
           and stm[2] == 'entry=[request,Event(),None]' and stm[3].startswith('self.txq.put(entry,timeout=')
-          and stm[4] == 'returnentry')
+          and stm[4] == 'ifnotself._running:entry[1].set()'
+          and stm[5] == 'returnentry')
     return 'bool', cbool(ok)
 
 
@@ -183,14 +185,17 @@ def rx_deliver_shape():
 
 
 def rx_cleanup_shape():
-    """first statement of the loop: while self.cleanup: entry = pop(); remove the item whose value IS the entry"""
+    """first statement of the loop: while self.cleanup: entry = pop(); remove the item whose value IS the entry;
+    second: the parked requests are re-queued on every turn (repair 2fda835); third: readline"""
     _, loop = _rx_loop()
     w = loop.body[0]
     ok = (_norm(loop.test) == 'self._running' and isinstance(w, ast.While) and _norm(w.test) == 'self.cleanup'
           and _norm(w.body[0]) == 'entry=self.cleanup.pop()' and isinstance(w.body[1], ast.For)
           and _norm(w.body[1].iter) == 'self.active_requests.items()'
           and _norm(w.body[1].body[0]).replace('\n', '') == 'ifprevisentry:self.active_requests.pop(key)break'
-          and _norm(loop.body[1]) == 'reply=self.io.readline()')
+          and isinstance(loop.body[1], ast.While) and _norm(loop.body[1].test) == 'notself.pending.empty()'
+          and [_norm(s) for s in loop.body[1].body] == ['self.txq.put(self.pending.get())']
+          and _norm(loop.body[2]) == 'reply=self.io.readline()')
     return 'bool', cbool(ok)
 
 
@@ -203,21 +208,33 @@ def rx_finally_shape():
     return 'bool', cbool(ok)
 
 
-DISCONNECT_CALLS = ['self._shutdown.set', 'self.txq.empty', 'self.txq.get', 'self.io.shutdown', 'self.txq.put',
-                    'self._txthread.join', 'self._rxthread.join', 'self.io.disconnect',
+DISCONNECT_CALLS = ['self._shutdown.set', 'self.txq.get', 'entry[1].set', 'self.io.shutdown', 'self.txq.put',
+                    'txthread.join', 'rxthread.join', 'self.io.disconnect',
                     'self.active_requests.popitem', 'event.set', 'self.pending.get', 'event.set']
 
 
 def disconnect_order():
-    """the synchronisation-relevant calls of disconnect() in source order"""
+    """the synchronisation-relevant calls of disconnect() in source order; the drain of txq sets the event of every
+    dropped entry (repair 14a9701); the thread handles are read into locals before put/join (repair a58ac30)"""
     f = _method('disconnect')
     calls = sorted((c for c in walk_type(f, ast.Call)), key=lambda c: (c.lineno, c.col_offset))
     names = [_norm(c.func) for c in calls]
     names = [n for n in names if n in set(DISCONNECT_CALLS)]
     first = _norm(f.body[0]) == 'self._running=False'
     guards = [_norm(s.test) for s in f.body if isinstance(s, ast.If)]
-    ok = (names == DISCONNECT_CALLS and first
-          and guards == ['shutdown', 'self.io', 'self._txthread', 'self._rxthread', 'self.io'])
+    stm = [_norm(s) for s in f.body]
+    drains = [s for s in f.body if isinstance(s, ast.Try) and 'self.txq.get' in _norm(s)]
+    drain_ok = (len(drains) == 1 and len(drains[0].body) == 1 and isinstance(drains[0].body[0], ast.While)
+                and _norm(drains[0].body[0].test) == 'True'
+                and [_norm(s) for s in drains[0].body[0].body] ==
+                ['entry=self.txq.get(False)', 'ifentryisnotNone:entry[1].set()']
+                and len(drains[0].handlers) == 1 and _norm(drains[0].handlers[0].type) == 'queue.Empty')
+    locals_ok = ('txthread=self._txthread' in stm and 'rxthread=self._rxthread' in stm
+                 and stm.index('txthread=self._txthread') + 1 < len(stm)
+                 and stm[stm.index('txthread=self._txthread') + 1].startswith('iftxthread:self.txq.put(None)txthread.join()')
+                 and stm[stm.index('rxthread=self._rxthread') + 1].startswith('ifrxthread:rxthread.join()'))
+    ok = (names == DISCONNECT_CALLS and first and drain_ok and locals_ok
+          and guards == ['shutdown', 'self.io', 'txthread', 'rxthread', 'self.io'])
     return 'bool', cbool(ok)
 
 
